@@ -69,9 +69,9 @@ PROPS = {
     'C07': dict(obligations=lambda: P('SqProps.C07') + TIE_FN + TIE_CONST,
                 slices=['prog', 'ops', 'alias', 'session_cache'], monitors=[],
                 pending=['a denotational (big-step) reference semantics defined independently of the machine and proved equal to it (the frame lemma evaluation_is_compositional and the big-step theorems of C07 / C09 are the compositional half)']),
-    'C08': dict(obligations=lambda: P('SqProps.C08') + T('SqTie.LexRules', 'lexrules_tie'),
+    'C08': dict(obligations=lambda: P('SqProps.C08') + P('SqProps.C08Rat') + T('SqTie.LexRules', 'lexrules_tie'),
                 slices=['num'], monitors=['c08'],
-                pending=['the identity a / b = (divNum / divDen) · 10^divExp as a statement over rationals (by construction of divNum / divDen / divExp; the rounding half — fix_rounds_to_nearest, division_is_correctly_rounded, add_sub_mul_correctly_rounded — is proved for all operands)']),
+                pending=['pow / round / quantize / the Decimal builtins against ℚ (+ - * / and the comparisons are: arithmetic_is_correctly_rounded, comparisons_are_rational_order in SqProps/C08Rat.lean)']),
     'C09': dict(obligations=lambda: P('SqProps.C09') + SHAPE_OPS,
                 slices=['probe'], monitors=['c09'],
                 pending=['big-step statements for the three-part slice node and for callbacks driven by map / filter / reduce / sorted (proved with the frame lemma for every single-operand frame, strict binary operators, and / or, if-else, call arguments, dict literals and statement lists of any size)']),
